@@ -39,6 +39,10 @@ func (exec *Executor) compareItems(ctx context.Context, node ast.Node, left, rig
 	case int64, float64, json.Number:
 		switch right.(type) {
 		case int64, float64, json.Number:
+			if !isComparableNumber(left) || !isComparableNumber(right) {
+				// A json.Number outside the range of int64 and float64.
+				return predUnknown, nil
+			}
 			cmp = compareNumeric(left, right)
 		default:
 			return predUnknown, nil
@@ -68,6 +72,19 @@ func (exec *Executor) compareItems(ctx context.Context, node ast.Node, left, rig
 	}
 
 	return applyCompare(op, cmp)
+}
+
+// isComparableNumber returns false if num is a json.Number that can be
+// converted to neither int64 nor float64, such as 1e400, and which
+// compareNumeric therefore cannot compare.
+func isComparableNumber(num any) bool {
+	if num, ok := num.(json.Number); ok {
+		if _, err := num.Int64(); err != nil {
+			_, err = num.Float64()
+			return err == nil
+		}
+	}
+	return true
 }
 
 // compareBool compares two boolean values and returns 0, 1, or -1. Returns
